@@ -364,6 +364,40 @@ def additive_rows(ctx):
                     elif res[tname] != outcome["mv"][tname]:
                         ctx.violation("jac/additive/%s/%s" % (which, pname), "%s operator of a %s method: differentiating the %s product w.r.t. an additive %s tensor %s, the mv product %s"
                                       % (which, kind, pname, tname, res[tname], outcome["mv"][tname]), {"kind": kind, "which": which, "product": pname})
+    # affine / quadratic functions with constant coefficients: the Jacobian / Hessian is a constant, so every product is constant in
+    # every differentiable tensor.  JacGradMode.GraphIffRecording: taken while recording, the product still carries a graph (its
+    # derivatives are exact zeros, not an error)
+    M0 = torch.tensor([[0.4, -1.2], [0.7, 0.3]], dtype=DT)
+    S0 = torch.tensor([[2.0, 0.5], [0.5, 1.0]], dtype=DT)
+    for which in ("jac", "hess"):
+        yv = torch.tensor([0.3, -0.8], dtype=DT, requires_grad=True)
+        bv = torch.tensor([1.0, 2.0], dtype=DT, requires_grad=True)
+        fn = (lambda y_, b_: M0 @ y_ + b_) if which == "jac" else (lambda y_, b_: 0.5 * (y_ * (S0 @ y_)).sum() + (b_ * y_).sum())
+        D = M0 if which == "jac" else S0
+        x = torch.tensor([0.7, -1.3], dtype=DT)
+        X = torch.tensor([[0.7, 0.2, 1.0], [-1.3, 0.5, 0.0]], dtype=DT)
+        prods = {"mv": (lambda o: o.mv(x), D @ x), "rmv": (lambda o: o.rmv(x), D.T @ x), "mm": (lambda o: o.mm(X), D @ X), "rmm": (lambda o: o.rmm(X), D.T @ X),
+                 "fm": (lambda o: o.fullmatrix(), D), "H.mv": (lambda o: o.H.mv(x), D.T @ x)}
+        for pname, (call, exp) in prods.items():
+            n += 1
+            ctx.case(key=("constant-operator", which, pname))
+            why = None
+            try:
+                op = (xitorch.grad.jac if which == "jac" else xitorch.grad.hess)(fn, (yv, bv), idxs=0)
+                val = call(op)
+                if not torch.allclose(val, exp, atol=1e-12):
+                    why = "value differs from the constant matrix's product by %.2e" % float((val - exp).abs().max())
+                elif not val.requires_grad:
+                    why = "the product carries no graph although it was taken while recording and its arguments require grad"
+                else:
+                    gs = torch.autograd.grad(val.sum(), [yv, bv], allow_unused=True)
+                    if any(g_ is not None and float(g_.abs().max()) != 0.0 for g_ in gs):
+                        why = "non-zero derivative of a constant product"
+            except Exception as e:
+                why = "raised %s: %s" % (type(e).__name__, str(e)[:120])
+            if why:
+                ctx.violation("jac/constant-operator/%s/%s" % (which, pname), "%s operator of %s function with constant coefficients, %s product: %s"
+                              % (which, "an affine" if which == "jac" else "a quadratic", pname, why), {"which": which, "product": pname})
     return n
 
 
